@@ -95,9 +95,9 @@ def rt_merge(c, a, b):
     """value `a if c else b`"""
     if a is b:
         return a
-    if a is UNB:
+    if a is UNB or isinstance(a, _Unset):    # unbound on one side: the real code cannot read it there (UnboundLocalError / numba typing error)
         return b
-    if b is UNB:
+    if b is UNB or isinstance(b, _Unset):
         return a
     if isinstance(a, (bool, SymBool)) and isinstance(b, (bool, SymBool)):
         return mkb(z3.If(c.e, bexpr(a), bexpr(b)))
